@@ -841,3 +841,39 @@ def decimal_checked_cells(run, arms):
         h.variant, h.tags, h.spec = variant, ("Decimal", "Decimal"), Spec("")
         hs.append(h)
     return hs
+
+
+VALUE_RS = "src/value/mod.rs"
+
+
+def partialeq_cells(mode):
+    """`Value == Value` (the comparison behind ==, != and list membership), decided directly on the derived / hand-written
+    PartialEq: same tag => the payload type's own equality (IEEE for Float: -0 == 0, NaN != NaN); different tags => false."""
+    from .rustgen import SCALAR_TAGS
+    hs = []
+    natural = {"Int": "a == b", "Float": "a == b", "Decimal": "a == b", "Bool": "a == b", "DateTime": "a == b", "Duration": "a == b", "None": "true"}
+    for ta in SCALAR_TAGS:
+        for tb in SCALAR_TAGS:
+            same = ta == tb
+            if (mode == "c02") != same:
+                continue
+            sa, sb = Sym(ta, "a", dec="scale0"), Sym(tb, "b", dec="scale0")
+            exp = natural[ta] if same else "false"
+            body = f"""
+        {sa.decl}
+        {sb.decl}
+        let (va, vb) = ({sa.value}, {sb.value});
+        let r = va == vb;
+        show("left", &va); show("right", &vb); show("equal", &r);
+        assert!(r == ({exp}));
+        let r2 = va != vb;
+        assert!(r2 == !({exp}));
+        std::mem::forget(va); std::mem::forget(vb);"""
+            h = Harness(f"{mode}_valueeq_{ta}_{tb}", body, unwind=2, heavy=(ta == "Decimal" and same),
+                        meta={"operation": "Value == Value", "operands": {"a": ta, "b": tb},
+                              "expect": "payload type's own equality" if same else "false (different types are never equal)"})
+            h.file = VALUE_RS
+            h.spec = Spec("", quick=True)
+            h.variant, h.tags = "ValueEq", (ta, tb)
+            hs.append(h)
+    return hs
